@@ -147,15 +147,16 @@ def main(pid, explorer, deps_gen=(), extra_vo=(), assumptions=(), not_modelled='
     tie_broken = []
     # 1. translators, Coq obligations, drivers
     tr = translate.run_all()
-    for name, err in tr.items():
-        if err:
-            proof_broken.append('translator %s: %s' % (name, err))
+    # a translator that fails leaves a generated file that does not compile: exactly the obligations (and, through
+    # Extract.v, the executable model) that depend on it break below; its message is attached to those reports
+    tr_errs = ['translator %s: %s' % (name, err) for name, err in tr.items() if err]
     theorems = properties_info(pid)
     ok, out = vlib.coq_make(['Properties_%s.vo' % pid] + list(extra_vo))
     make_log = out
     if not ok:
         for f in failing_vo(out) or ['Properties_%s' % pid]:
             proof_broken.append('Coq obligation no longer checks: %s.v' % f)
+        proof_broken += tr_errs
     bad = forbidden_scan()
     if bad:
         proof_broken.append('forbidden declarations in the development: ' + ', '.join(bad[:10]))
@@ -170,7 +171,7 @@ def main(pid, explorer, deps_gen=(), extra_vo=(), assumptions=(), not_modelled='
             proof_broken.append('coqchk rejects Properties_%s.vo' % pid)
     model, merr = vlib.build_model()
     if model is None:
-        tie_broken.append({'what': 'the extracted model does not build', 'detail': (merr or '')[-1500:]})
+        tie_broken.append({'what': 'the extracted model does not build', 'detail': (merr or '')[-1500:], 'translators': tr_errs})
     ctx.model = model
     res = Result()
     build_err = None
